@@ -130,7 +130,7 @@ func effectFindings(c *core.Ctx, fn *an.Fn) []string {
 
 func runC16(c *core.Ctx) {
 	c.Rule("R1", "spread-minimising generation is a pure function of (instance index, zone index)", 10)
-	c.Rule("R2", "rejection sampling against the complete taken set; sorted result", 6)
+	c.Rule("R2", "rejection sampling against the complete taken set; only the filtered slice is returned; sorted result", 8)
 	c.Rule("R3", "partition tokens come from the spread-minimising generator (id, zone 0, nothing taken)", 1)
 	c.Rule("R4", "token counter and appended tokens agree on every path of the placement loop", 1)
 	c.Rule("R5", "the zone index is the zone's position in the sorted zone list, whatever order the zones are configured in", 1)
@@ -261,6 +261,19 @@ func c16Sampling(c *core.Ctx, pkg *packages.Package, fn *an.Fn) {
 		c.Undec("R2", key+":append", fn.Pos(), "returned slice variable not found")
 		return
 	}
+	// every return hands back the filtered slice (or nothing): no path returns unfiltered candidates
+	var otherRet []string
+	for _, b := range g.Blocks {
+		if r := an.ReturnOf(b); r != nil && len(r.Results) == 1 {
+			if o := fn.ObjOf(r.Results[0]); o != result {
+				rc := fn.Canon(r.Results[0])
+				if rc != "nil" && !strings.HasSuffix(rc, "{}") {
+					otherRet = append(otherRet, rc)
+				}
+			}
+		}
+	}
+	c.Check(len(otherRet) == 0, "R2", key+":returns", fn.Pos(), fmt.Sprintf("every return hands back %s, the slice built by the guarded appends; other returned values: %v", result.Name(), otherRet), 1)
 	n := 0
 	for _, call := range fn.CallsTo(false, "", "append") {
 		if len(call.Expr.Args) != 2 || fn.ObjOf(call.Expr.Args[0]) != result {
